@@ -435,7 +435,7 @@ def run(tier, seed, model_ok, translator, search=False):
                 "fixer. Non-trivial: the damaged input differs from the undamaged one; distinct by damaged input + "
                 "configuration. Base i is generated from (seed, i).")
     thorough = tier == "thorough"
-    n_bases = 20 if thorough else (12 if search else 6)
+    n_bases = 14 if thorough else (12 if search else 6)
     ops, pend = [], []
     tmpdir = tempfile.mkdtemp(prefix="c12-")
     try:
